@@ -40,6 +40,14 @@ def run_vt(prop, tier, seed, replay, clauses, rule, nontrivial):
                 continue
             rec = {"clause": cl, "variant": c.get("variant", c.get("variants")), "case": c}
             rec["err"] = (c.get("lookup", {}).get("err") or c.get("reencoded", {}).get("err") or "")[:120]
+            if cl == "merge_extent":
+                # the listed finding is about sources whose equally named layers have DIFFERENT extents; an extent problem with
+                # equal source extents is something else and must not be swallowed by it
+                ext = {}
+                for t in c.get("present", []):
+                    for layer in t:
+                        ext.setdefault(layer["name"], set()).add(layer["extent"])
+                rec["source_extents_differ"] = any(len(v) > 1 for v in ext.values())
             if line - 1 < len(case_list):
                 rec["replay_case"] = case_list[line - 1]
             run.failure(rec)
